@@ -4,6 +4,7 @@ import Pfl.Spec.FA
 import Pfl.Oracle.LangEquiv
 import Pfl.Oracle.RegOps
 import Pfl.Model.Names
+import Pfl.Model.Minimize
 open Lean Pfl
 namespace PflDrv
 
@@ -45,6 +46,17 @@ def complementModel (A : ENFA Nat) (cls : String) (names : Nat → String) (tras
       let D' := D.addSyms A.syms
       let t := freshTrash D'.states
       pure (false, (D'.complementRaw D'.copyD t).mapStates Sum.inr, t)
+
+/-- `to_single_state` on a partition group: `None` prints as "TRASH" -/
+def groupName {σ} (names : σ → String) (g : List (Option σ)) : String :=
+  String.ofList (Names.mergeName (fun q : Option σ => match q with
+    | none => "TRASH".toList
+    | some q => (names q).toList) g)
+
+def minimizeNamed {σ} [DecidableEq σ] (A : ENFA σ) (names : σ → String) : R (ENFA String) :=
+  match A.nerodeGroups bigFuel with
+  | none => throw "fuel"
+  | some gs => pure (A.minimizeOf gs (groupName names) "Empty")
 
 def jSum : Nat ⊕ String → Json
   | .inl n => jNat n
@@ -121,6 +133,39 @@ def faHandle (op : String) (j : Json) : R Json := do
     | none => throw "fuel"
     | some P => pure (jENFA jStr (P.mapStates fun p =>
         String.ofList (Names.pairName (fun q => (nameFn na q).toList) (fun q => (nc q).toList) p)))
+  | "fa.nerode" =>
+    let A ← asENFA (← field j "A")
+    match A.nerodeGroups bigFuel with
+    | none => throw "fuel"
+    | some gs => pure (jList (jList (jOpt jNat)) gs)
+  | "fa.minimize" =>
+    let A ← asENFA (← field j "A")
+    let names ← asStrList (← field j "names")
+    pure (jENFA jStr (← minimizeNamed A (nameFn names)))
+  | "fa.isReduced" =>
+    let A ← asENFA (← field j "A")
+    pure (jOpt jBool (A.isReduced bigFuel))
+  | "fa.iso" =>
+    let A ← asENFA (← field j "A")
+    let B ← asENFA (← field j "B")
+    match A.isoPairs B bigFuel with
+    | none => pure (jBool false)
+    | some m => pure (jBool (A.checkIso B m))
+  | "fa.isEquivalent" =>
+    let A ← asENFA (← field j "A")
+    let B ← asENFA (← field j "B")
+    let clsA ← asStr (← field j "clsA")
+    let clsB ← asStr (← field j "clsB")
+    let na ← asStrList (← field j "namesA")
+    let nb ← asStrList (← field j "namesB")
+    let prep (X : ENFA Nat) (cls : String) (nm : List String) : R (ENFA String) := do
+      if cls == "D" then minimizeNamed X (nameFn nm)
+      else match X.toDet (mergeName (nameFn nm)) (cls == "E") bigFuel with
+        | none => throw "fuel"
+        | some D => minimizeNamed D id
+    let MA ← prep A clsA na
+    let MB ← prep B clsB nb
+    pure (jOpt jBool (MA.isoWalk MB bigFuel))
   | "fa.preds" =>
     let A ← asENFA (← field j "A")
     pure (Json.mkObj [("isEmpty", jBool A.isEmpty), ("isDetE", jBool A.isDeterministicE),
